@@ -5,8 +5,10 @@ SEED="$1"; PID="$2"; TIER="${3:-quick}"
 cd /verif || exit 2
 git -C /repo diff --quiet || { echo "repo dirty"; exit 2; }
 git -C /repo apply "$SEED/patch.diff" 2>/dev/null || git -C /repo apply --3way "$SEED/patch.diff" 2>/dev/null || { git -C /repo checkout -- . ; git -C /repo reset -q; echo "patch does not apply"; exit 2; }
+cp "evidence/$PID.json" "/tmp/evidence_$PID.keep" 2>/dev/null
 bin/check "$PID" "$TIER" > "/tmp/try_${PID}.out" 2>&1
 RC=$?
+[ -f "/tmp/evidence_$PID.keep" ] && mv "/tmp/evidence_$PID.keep" "evidence/$PID.json"
 git -C /repo reset -q; git -C /repo checkout -- .
 grep -E "^--- $PID|^VIOLATION|^KNOWN|^$PID " "/tmp/try_${PID}.out" | head -12
 echo "exit=$RC"
